@@ -5,7 +5,7 @@
    Sources: _qr.py:44 (LAPACK geqp3), _ccqr.py 85-96 + 128-143, _gqr.py 93-132. *)
 From Coq Require Import List Arith QArith Qcanon Bool.
 Import ListNotations.
-From PS Require Import Sel.ArgmaxGen Sel.Greedy LA.Sums.
+From PS Require Import Sel.ArgmaxGen Sel.Greedy LA.Sums LA.SqrtCmp.
 Open Scope Qc_scope.
 
 Definition fmat := nat -> nat -> Qc.
@@ -55,15 +55,17 @@ Fixpoint follow (n : nat) (G : fmat) (picks : list nat) : list (list Qc) :=
   | [] => []
   | p :: rest => map (fun c => G c c) (seq 0 n) :: follow n (memo n (schur_f G p)) rest
   end.
-(* observed pick p at a step with diagonal d and still-unranked candidates cs: maximal within tol, and no other
-   candidate exceeds it by more than tol *)
-Fixpoint check_follow (tol : Qc) (diags : list (list Qc)) (picks : list nat) (ranked : list nat) : bool :=
+(* observed pick p at a step with diagonal d and still-unranked candidates: "maximal within rounding tolerance" means
+   sqrt(d_p) >= (1 - rho) sqrt(d_c) - tau for every unranked c  (rho relative, tau absolute, both on the NORM scale),
+   decided exactly: sqrt((1-rho)^2 d_c) - tau <= sqrt(d_p) - 0 *)
+Fixpoint check_follow (rho tau : Qc) (diags : list (list Qc)) (picks : list nat) (ranked : list nat) : bool :=
   match diags, picks with
   | d :: ds, p :: ps =>
-      forallb (fun c => existsb (Nat.eqb c) ranked || Qcleb (nth c d 0) (nth p d 0 + tol)) (seq 0 (length d)) &&
-      negb (existsb (Nat.eqb p) ranked) && check_follow tol ds ps (p :: ranked)
+      forallb (fun c => existsb (Nat.eqb c) ranked ||
+                        sqrt_leb ((1 - rho) * (1 - rho) * nth c d 0, tau) (nth p d 0, 0)) (seq 0 (length d)) &&
+      negb (existsb (Nat.eqb p) ranked) && check_follow rho tau ds ps (p :: ranked)
   | _, _ => true
   end.
-Definition check_greedy (tol : Qc) (n : nat) (G : fmat) (picks : list nat) : bool :=
-  check_follow tol (follow n (memo n G) picks) picks [].
+Definition check_greedy (rho tau : Qc) (n : nat) (G : fmat) (picks : list nat) : bool :=
+  check_follow rho tau (follow n (memo n G) picks) picks [].
 (* exact margin between the best and the second best candidate at every step (for the margin-guarded equality) *)
